@@ -153,7 +153,9 @@ pub fn old_view(m: &[u8], starts: &[usize]) -> Value {
     let mut qs = vec![];
     let mut rs = vec![];
     let mut acc = vec![];
+    let mut edns = vec![];
     for &s in starts {
+        edns.push(old_edns(m, s));
         acc.push(match old_parser(&mref, s) {
             Some(mut p) => match ParsedRecord::parse(&mut p) {
                 Ok(rec) if both_know(rec.rtype().to_int()) => {
@@ -189,7 +191,39 @@ pub fn old_view(m: &[u8], starts: &[usize]) -> Value {
             None => fail(),
         });
     }
-    json!({"names": names, "qs": qs, "rs": rs, "msg": old_msg_view(m), "acc": acc})
+    json!({"names": names, "qs": qs, "rs": rs, "msg": old_msg_view(m), "acc": acc, "edns": edns})
+}
+
+fn no_edns() -> Value {
+    json!({"ok": false, "v": []})
+}
+
+/// OPT record with the root owner at `start`, read through OptRecord
+fn old_edns(m: &[u8], start: usize) -> Value {
+    if m.len() < start + 3 || m[start..start + 3] != [0, 0, 41] {
+        return no_edns();
+    }
+    let mref: &[u8] = m;
+    let mut p = match old_parser(&mref, start) {
+        Some(p) => p,
+        None => return no_edns(),
+    };
+    let rec = match ParsedRecord::parse(&mut p) {
+        Ok(r) => r,
+        Err(_) => return no_edns(),
+    };
+    let r = match rec.to_record::<domain::base::opt::Opt<_>>() {
+        Ok(Some(r)) => r,
+        _ => return no_edns(),
+    };
+    let o = domain::base::opt::OptRecord::from_record(r);
+    let hdr = domain::base::Header::new();
+    let mut opts = vec![];
+    for x in o.opt().iter::<domain::base::opt::UnknownOptData<_>>().flatten() {
+        opts.push(json!([x.code().to_int(), x.data().len()]));
+    }
+    let flags = (u16::from(o.dnssec_ok()) << 15) | (o.as_record().ttl().as_secs() as u16 & 0x7FFF);
+    json!({"ok": true, "v": [o.udp_payload_size(), o.rcode(hdr).ext(), o.version(), flags, opts]})
 }
 
 /// the new API's flattened view, computed with the established iterators
@@ -306,12 +340,14 @@ pub fn new_view(m: &[u8], starts: &[usize]) -> Value {
     let mut qs = vec![];
     let mut rs = vec![];
     if m.len() < 12 {
-        return json!({"names": [], "qs": [], "rs": [], "msg": {"items": [], "end": "short"}, "acc": []});
+        return json!({"names": [], "qs": [], "rs": [], "msg": {"items": [], "end": "short"}, "acc": [], "edns": []});
     }
     let contents = &m[12..];
     let mut acc = vec![];
+    let mut edns = vec![];
     for &s in starts {
         let st = s - 12;
+        edns.push(new_edns(contents, st));
         acc.push(
             match domain::new::base::Record::<RevNameBuf, &UnparsedRecordData>::split_message_bytes(contents, st) {
                 Ok((r, _)) if both_know(r.rtype.code.get()) => {
@@ -350,7 +386,44 @@ pub fn new_view(m: &[u8], starts: &[usize]) -> Value {
             }
         });
     }
-    json!({"names": names, "qs": qs, "rs": rs, "msg": new_msg_view(m), "acc": acc})
+    json!({"names": names, "qs": qs, "rs": rs, "msg": new_msg_view(m), "acc": acc, "edns": edns})
+}
+
+fn edns_fields(e: &domain::new::edns::EdnsRecord<&domain::new::rdata::Opt>) -> Value {
+    let flags = u16::from_be_bytes([e.flags.as_bytes()[0], e.flags.as_bytes()[1]]);
+    let opt: &domain::new::rdata::Opt = *e.data;
+    json!([e.max_udp_payload.get(), e.ext_rcode, e.version, flags, opt_pairs(opt.as_bytes())])
+}
+
+/// The EDNS view of an OPT record with the root owner through every route
+/// the new API offers: EdnsRecord parsed directly (what MessageParser does),
+/// Record -> EdnsRecord, and EdnsRecord -> Record -> EdnsRecord.  All routes
+/// must give the same fields.
+fn new_edns(contents: &[u8], st: usize) -> Value {
+    use domain::new::edns::EdnsRecord;
+    use domain::new::rdata::Opt;
+    if contents.len() < st + 3 || contents[st..st + 3] != [0, 0, 41] {
+        return no_edns();
+    }
+    let direct = EdnsRecord::<&Opt>::split_message_bytes(contents, st).ok().map(|(e, _)| edns_fields(&e));
+    let via_record = NewRecord::split_message_bytes(contents, st)
+        .ok()
+        .and_then(|(r, _)| EdnsRecord::<&Opt>::try_from(r).ok());
+    let via = via_record.as_ref().map(edns_fields);
+    if direct != via {
+        return json!({"ok": "routes differ", "direct": direct, "via_record": via});
+    }
+    if let Some(e) = via_record {
+        let back: NewRecord<'_> = e.clone().into();
+        let again = EdnsRecord::<&Opt>::try_from(back).ok().map(|e| edns_fields(&e));
+        if again != via {
+            return json!({"ok": "round trip differs", "first": via, "again": again});
+        }
+    }
+    match via {
+        Some(v) => json!({"ok": true, "v": v}),
+        None => no_edns(),
+    }
 }
 
 fn new_msg_view(m: &[u8]) -> Value {
